@@ -295,7 +295,7 @@ HIST = "history::History::is_duplicate_zero_length_match"
 REP_MI = "<op_repeat::Repeat as %s>::matches_iter" % OC
 
 
-@rule("CUT-HISTORY", ["C01", "C02", "C19"], floor=1)
+@rule("CUT-HISTORY", ["C01", "C02", "C19", "C16"], floor=1)
 def cut_history(ctx):
     """The zero-iteration alternative of a greedy repeat with min == 0 must always be offered.  Suppressing it when
     the same repeat was already entered at the same position (the duplicate-zero-length memo) drops an alternative
